@@ -195,7 +195,7 @@ Proof.
     + cbn [slices set_len]. lia.
     + split; cbn [slices set_len]; rewrite Es1; [exact Ht1 | exact Hok1].
     + change (content (set_len l1 (len l1 - Z.of_nat n)%Z)) with (content l1) in Hr', Hc'.
-      rewrite Hc1 in Hr', Hc'. cbn [app] in Hr'.
+      rewrite Hc1 in Hr', Hc'. cbn [app] in Hr'. rewrite Es1 in Hr'.
       exists l'. split; [exact Hr'|]. split; [exact Hc'|]. constructor; auto.
       rewrite Hl', Hc', skipn_length. cbn [len set_len]. lia.
 Qed.
@@ -229,18 +229,20 @@ Proof.
   destruct (IH (n - k) (acc ++ firstn k (body m s)) (set_front l1 (adv k s))) as [l' [Hr' [Hc' [Hl' [Hs' Hle']]]]].
   - rewrite (content_adv_front l1 s r k Es1 Hk). rewrite app_length, skipn_length.
     rewrite Hcs, app_length in Hn. lia.
-  - rewrite slices_set_front, Es1. cbn [tl length]. rewrite Es1 in Hlen1. simpl in Hlen1. lia.
+  - rewrite slices_set_front, Es1. cbn [tl length]. rewrite Es1, Es in Hlen1. cbn [length] in Hlen1, Hf. lia.
   - split; rewrite slices_set_front, Es1; cbn [tl]; [exact Ht1|].
     constructor; [apply ok_adv; assumption|assumption].
   - exists l'. rewrite Hr'. rewrite (content_adv_front l1 s r k Es1 Hk) in Hr', Hc' |- *.
     rewrite Hcs. split; [|split; [|split; [|split]]].
-    + f_equal. rewrite <- app_assoc. f_equal.
-      destruct (Nat.le_gt_cases n (ssize s)) as [Hle|Hgt].
-      * replace k with n by lia. replace (n - n) with 0 by lia. rewrite firstn_app_le by lia. cbn [firstn]. now rewrite app_nil_r.
-      * replace k with (ssize s) by lia. rewrite skipn_all2 by lia. cbn [app].
-        rewrite firstn_all2 by lia. rewrite firstn_app_ge by lia. rewrite Hbl. reflexivity.
+    + assert (HX : firstn k (body m s) ++ firstn (n - k) (skipn k (body m s) ++ concat (map (body m) r))
+                   = firstn n (body m s ++ concat (map (body m) r))).
+      { destruct (Nat.le_gt_cases n (ssize s)) as [Hle|Hgt].
+        * replace k with n by lia. replace (n - n) with 0 by lia. rewrite firstn_O, app_nil_r, firstn_app_le by lia. reflexivity.
+        * replace k with (ssize s) by lia. rewrite skipn_all2 by lia. cbn [app].
+          rewrite firstn_all2 by lia. rewrite firstn_app_ge by lia. rewrite Hbl. reflexivity. }
+      rewrite <- app_assoc, HX. reflexivity.
     + rewrite Hc'. destruct (Nat.le_gt_cases n (ssize s)) as [Hle|Hgt].
-      * replace k with n by lia. replace (n - n) with 0 by lia. rewrite skipn_app_le by lia. reflexivity.
+      * replace k with n by lia. replace (n - n) with 0 by lia. cbn [skipn]. rewrite (skipn_app_le (body m s)) by lia. reflexivity.
       * replace k with (ssize s) by lia. rewrite (skipn_all2 (body m s)) by lia. cbn [app].
         rewrite skipn_app_ge by lia. rewrite Hbl. reflexivity.
     + rewrite Hl'. cbn [len set_front set_slices]. exact Hl1.
@@ -272,7 +274,7 @@ Proof.
   - destruct (rs_slow_spec (2 * S (length (slices l)) + n) n [] l) as [l' [Hr' [Hc' [Hl' [[Ht' Hok'] Hle']]]]].
     + lia.
     + rewrite Es. simpl. lia.
-    + rewrite Es. exact Hsh.
+    + exact Hsh.
     + rewrite Es in Hr'. rewrite Hr'. cbn [bind app]. eexists. split; [reflexivity|].
       change (content (set_len l' (len l' - Z.of_nat n)%Z)) with (content l').
       split; [exact Hc'|]. split; [|exact Hle']. constructor; auto.
@@ -294,7 +296,7 @@ Proof.
     rewrite IH; [|assumption|lia]. f_equal. rewrite <- app_assoc. f_equal.
     destruct (Nat.le_gt_cases n (ssize s)) as [Hle|Hgt].
     + replace (Nat.min n (ssize s)) with n by lia. replace (n - n) with 0 by lia.
-      rewrite firstn_app_le by lia. cbn [firstn]. now rewrite app_nil_r.
+      rewrite firstn_O, app_nil_r, firstn_app_le by lia. reflexivity.
     + replace (Nat.min n (ssize s)) with (ssize s) by lia.
       rewrite firstn_all2 by lia. rewrite firstn_app_ge by lia. rewrite Hbl. reflexivity.
 Qed.
@@ -442,8 +444,13 @@ Proof.
       set (R := concat (map (body m) r)) in *.
       replace (Nat.min n (length (body m s) + length R)) with (length (body m s) + Nat.min (n - ssize s) (length R)) by lia.
       split.
-      * rewrite firstn_all2 by lia. rewrite firstn_app_ge by lia. rewrite <- app_assoc. do 3 f_equal. lia.
-      * rewrite Hc', Hl', Hl2, Hle', Hle2. rewrite skipn_app_ge by lia. repeat split; auto; try apply Hs'. f_equal. lia.
+      * rewrite (firstn_all2 (n := ssize s) (body m s)) by lia.
+        rewrite (firstn_app_ge (body m s) R) by lia.
+        replace (length (body m s) + Nat.min (n - ssize s) (length R) - length (body m s)) with (Nat.min (n - ssize s) (length R)) by lia.
+        rewrite <- app_assoc. reflexivity.
+      * rewrite Hc', Hl', Hl2, Hle', Hle2. rewrite (skipn_app_ge (body m s) R) by lia.
+        replace (length (body m s) + Nat.min (n - ssize s) (length R) - length (body m s)) with (Nat.min (n - ssize s) (length R)) by lia.
+        repeat split; auto; apply Hs'.
 Qed.
 
 Theorem read_copy_refines n l : WF l -> 0 < n ->
@@ -462,3 +469,633 @@ Proof.
 Qed.
 
 End ReaderProofs.
+
+(* ---------------------------------------------------------------------------------------- *)
+(* Part B — recycling and header updates never change a data byte                            *)
+(* ---------------------------------------------------------------------------------------- *)
+Lemma nth_upd_nth {A} (f : A -> A) : forall (l : list A) n k,
+  nth_error (upd_nth n f l) k = if k =? n then option_map f (nth_error l k) else nth_error l k.
+Proof.
+  induction l as [|x l IH]; intros n k.
+  - destruct n; cbn [upd_nth]; destruct k; cbn; try reflexivity; destruct (k =? n); reflexivity.
+  - destruct n as [|n]; destruct k as [|k]; cbn [upd_nth nth_error Nat.eqb]; try reflexivity.
+    apply IH.
+Qed.
+
+Definition same_data (m m' : shm) : Prop := forall x, sdata m' x = sdata m x.
+
+Lemma same_data_upd_hdr m o f : (forall t, st_data (f t) = st_data t) -> same_data m (upd_slot m o f).
+Proof.
+  intros Hf x. unfold sdata, upd_slot, with_slots. cbn [slots]. destruct (shmf x); [|reflexivity].
+  rewrite nth_upd_nth. destruct (off x =? o); [|reflexivity].
+  destruct (nth_error (slots m) (off x)); cbn [option_map]; [apply Hf|reflexivity].
+Qed.
+
+Lemma same_data_refl m : same_data m m. Proof. intros x; reflexivity. Qed.
+Lemma same_data_trans a b c : same_data a b -> same_data b c -> same_data a c.
+Proof. intros H1 H2 x. rewrite H2. apply H1. Qed.
+
+Lemma same_data_with_free m f : same_data m (with_free m f).
+Proof. intros x. reflexivity. Qed.
+
+Lemma same_data_recycle m s : same_data m (recycle m s).
+Proof.
+  unfold recycle. destruct (shmf s); [|apply same_data_refl].
+  destruct (find_class (cap s) (cls m) 0); [|apply same_data_refl].
+  eapply same_data_trans; [apply same_data_with_free|]. apply same_data_upd_hdr. reflexivity.
+Qed.
+
+Lemma same_data_recycle_all ss : forall m, same_data m (recycle_all m ss).
+Proof.
+  induction ss as [|s r IH]; intros m; [apply same_data_refl|].
+  unfold recycle_all in *. cbn [fold_left]. eapply same_data_trans; [apply same_data_recycle|apply IH].
+Qed.
+
+Lemma body_same m m' s : same_data m m' -> body m' s = body m s.
+Proof. intros H. unfold body. rewrite H. reflexivity. Qed.
+
+Lemma content_same m m' l : same_data m m' -> content m' l = content m l.
+Proof.
+  intros H. unfold content. f_equal. apply map_ext. intros s. apply body_same, H.
+Qed.
+
+Lemma WF_same m m' l : same_data m m' -> WF m l -> WF m' l.
+Proof.
+  intros H [H1 H2 H3]. constructor.
+  - rewrite (content_same m m' l H). exact H1.
+  - exact H2.
+  - eapply Forall_impl; [|exact H3]. intros s [Ha Hb]. split; [exact Ha|]. rewrite H. exact Hb.
+Qed.
+
+(* fields other than the slice list do not matter for content / WF *)
+Lemma WF_fields m l l' : slices l' = slices l -> len l' = len l -> WF m l -> WF m l'.
+Proof.
+  intros Hs Hl [H1 H2 H3]. constructor.
+  - unfold content. rewrite Hs, Hl. exact H1.
+  - rewrite Hs. exact H2.
+  - rewrite Hs. exact H3.
+Qed.
+
+Lemma settle_ok m l : WF m l ->
+  let '(m', l') := settle m l in
+  same_data m m' /\ WF m' l' /\ content m' l' = content m l /\ leases l' = leases l.
+Proof.
+  intros Hwf. unfold settle. pose proof (same_data_recycle_all (recycled l) m) as Hsd.
+  split; [exact Hsd|]. split; [|split; [|reflexivity]].
+  - apply (WF_same m _ _ Hsd). apply (WF_fields m l); [reflexivity|reflexivity|exact Hwf].
+  - rewrite (content_same m _ _ Hsd). reflexivity.
+Qed.
+
+(* appendBufferSlice of a non-empty slice appends its bytes and keeps the buffer well formed *)
+Lemma append_slice_ok m l s : WF m l -> slice_ok m s -> 0 < ssize s ->
+  WF m (append_slice l s) /\ content m (append_slice l s) = content m l ++ body m s.
+Proof.
+  intros [H1 H2 H3] Hs Hp.
+  assert (Hc : content m (append_slice l s) = content m l ++ body m s).
+  { unfold content, append_slice. destruct (shmf s); cbn [slices set_wpos set_len set_fromshm push_back set_slices];
+      rewrite map_app, concat_app; cbn [map concat]; rewrite app_nil_r; reflexivity. }
+  split; [|exact Hc]. constructor.
+  - rewrite Hc, app_length, (body_length m s Hs).
+    unfold append_slice. destruct (shmf s); cbn [len set_wpos set_len set_fromshm push_back set_slices]; lia.
+  - assert (Hsl : slices (append_slice l s) = slices l ++ [s]) by (unfold append_slice; destruct (shmf s); reflexivity).
+    rewrite Hsl. destruct (slices l) as [|x r]; [constructor|]. cbn [app tl] in *.
+    apply Forall_app. split; [exact H2|]. constructor; [exact Hp|constructor].
+  - assert (Hsl : slices (append_slice l s) = slices l ++ [s]) by (unfold append_slice; destruct (shmf s); reflexivity).
+    rewrite Hsl. apply Forall_app. split; [exact H3|]. constructor; [exact Hs|constructor].
+Qed.
+
+(* the heap slice built by handleFallbackData carries exactly the flushed bytes *)
+Lemma fallback_delivery m l d : WF m l -> d <> [] ->
+  WF m (append_slice l (fallback_slice d)) /\ content m (append_slice l (fallback_slice d)) = content m l ++ d.
+Proof.
+  intros Hwf Hd.
+  assert (Hb : body m (fallback_slice d) = d).
+  { unfold body, fallback_slice, ssize, sdata. cbn. rewrite Nat.sub_0_r. apply firstn_all. }
+  rewrite <- Hb at 3. apply append_slice_ok; [exact Hwf| |].
+  - unfold slice_ok, fallback_slice, sdata. cbn. lia.
+  - unfold ssize, fallback_slice. cbn. destruct d; [congruence|cbn; lia].
+Qed.
+
+(* release / releasePreviousReadAndReserve keep the content *)
+Lemma clean_pinned_ok m l : WF m l ->
+  let '(m', l') := clean_pinned m l in same_data m m' /\ slices l' = slices l /\ len l' = len l /\ wpos l' = wpos l.
+Proof.
+  intros _. unfold clean_pinned. destruct (pinned l) as [|p ps] eqn:E.
+  - split; [apply same_data_refl|repeat split].
+  - split; [apply same_data_recycle_all|repeat split].
+Qed.
+
+Lemma release_ok m l : WF m l ->
+  let '(m', l') := release m l in WF m' l' /\ content m' l' = content m l /\ leases l' = [].
+Proof.
+  intros Hwf. unfold release. pose proof (clean_pinned_ok m l Hwf) as Hcp.
+  destruct (clean_pinned m l) as [m1 l1]. destruct Hcp as [Hsd [Hs [Hl Hw]]].
+  assert (Hwf1 : WF m1 (set_leases l1 [])).
+  { apply (WF_same m m1 _ Hsd). apply (WF_fields m l); [exact Hs|exact Hl|exact Hwf]. }
+  assert (Hc1 : content m1 (set_leases l1 []) = content m l).
+  { rewrite (content_same m m1 _ Hsd). unfold content. cbn [slices set_leases]. rewrite Hs. reflexivity. }
+  cbn [slices set_leases wpos].
+  destruct (slices l1) as [|s r] eqn:Es; [split; [exact Hwf1|split; [exact Hc1|reflexivity]]|].
+  destruct (wpos l1) as [|[|k]|]; try (split; [exact Hwf1|split; [exact Hc1|reflexivity]]).
+  destruct (Nat.eqb_spec (ssize s) 0) as [Ez|Ez]; [|split; [exact Hwf1|split; [exact Hc1|reflexivity]]].
+  destruct Hwf1 as [G1 G2 G3]. cbn [slices set_leases] in G2, G3. rewrite Es in G2, G3.
+  inversion G3 as [|? ? Gs Gr]; subst.
+  assert (Hb0 : body m1 s = []) by (apply length_zero_iff_nil; rewrite (body_length m1 s Gs); exact Ez).
+  pose proof (same_data_recycle m1 s) as Hsd2.
+  assert (Hc2 : content (recycle m1 s) (set_wpos (set_slices (set_leases l1 []) r) WNil) = content m l).
+  { rewrite (content_same m1 _ _ Hsd2). rewrite <- Hc1. unfold content. cbn [slices set_wpos set_slices set_leases].
+    rewrite Es. cbn [map concat]. rewrite Hb0. reflexivity. }
+  split; [|split; [exact Hc2|reflexivity]].
+  apply (WF_same m1 _ _ Hsd2). constructor.
+  - cbn [len set_wpos set_slices set_leases]. cbn [len set_leases] in G1. rewrite G1. f_equal. f_equal.
+    unfold content. cbn [slices set_wpos set_slices set_leases]. rewrite Es. cbn [map concat]. rewrite Hb0. reflexivity.
+  - cbn [slices set_wpos set_slices]. cbn [tl] in G2. apply tailpos_tl. exact G2.
+  - cbn [slices set_wpos set_slices]. exact Gr.
+Qed.
+
+Lemma release_reserve_ok m l : WF m l ->
+  let '(m', l') := release_reserve m l in WF m' l' /\ content m' l' = content m l /\ leases l' = [].
+Proof.
+  intros Hwf. unfold release_reserve. pose proof (clean_pinned_ok m l Hwf) as Hcp.
+  destruct (clean_pinned m l) as [m1 l1]. destruct Hcp as [Hsd [Hs [Hl Hw]]].
+  assert (Hwf1 : WF m1 (set_leases l1 [])).
+  { apply (WF_same m m1 _ Hsd). apply (WF_fields m l); [exact Hs|exact Hl|exact Hwf]. }
+  assert (Hc1 : content m1 (set_leases l1 []) = content m l).
+  { rewrite (content_same m m1 _ Hsd). unfold content. cbn [slices set_leases]. rewrite Hs. reflexivity. }
+  cbn [len set_leases slices].
+  destruct (Z.eqb_spec (len l1) 0) as [Ez|Ez]; [|split; [exact Hwf1|split; [exact Hc1|reflexivity]]].
+  destruct (slices l1) as [|s [|s2 r]] eqn:Es; try (split; [exact Hwf1|split; [exact Hc1|reflexivity]]).
+  destruct Hwf1 as [G1 G2 G3]. cbn [slices set_leases len] in G1, G2, G3.
+  assert (Hcz : content m1 (set_leases l1 []) = []).
+  { apply length_zero_iff_nil. lia. }
+  destruct (shmf s) eqn:Esh.
+  - pose proof (same_data_upd_hdr m1 (off s) hdr_reset (fun t => eq_refl)) as Hsd2.
+    assert (Hb : body m1 (sreset s) = []) by (unfold body, ssize, sreset; cbn; reflexivity).
+    assert (Hc2 : content m1 (set_slices (set_leases l1 []) [sreset s]) = []).
+    { unfold content. cbn [slices set_slices map concat]. rewrite Hb. reflexivity. }
+    split; [|split; [|reflexivity]].
+    + apply (WF_same m1 _ _ Hsd2). constructor.
+      * rewrite Hc2. cbn [len set_slices set_leases]. rewrite Ez. reflexivity.
+      * cbn [slices set_slices tl]. constructor.
+      * cbn [slices set_slices]. constructor; [|constructor]. unfold slice_ok, sreset. cbn [rd wr]. lia.
+    + rewrite (content_same m1 _ _ Hsd2), Hc2, <- Hc1, Hcz. reflexivity.
+  - assert (Hc2 : content m1 (set_wpos (set_slices (set_leases l1 []) []) (wptr_pop (wpos (set_leases l1 [])))) = []) by reflexivity.
+    split; [|split; [|reflexivity]].
+    + constructor.
+      * rewrite Hc2. cbn [len set_wpos set_slices set_leases]. rewrite Ez. reflexivity.
+      * cbn [slices set_wpos set_slices tl]. constructor.
+      * cbn [slices set_wpos set_slices]. constructor.
+    + rewrite Hc2, <- Hc1, Hcz. reflexivity.
+Qed.
+
+(* ---------------------------------------------------------------------------------------- *)
+(* Part C — the byte-queue specification and the refinement of the pipe                      *)
+(* ---------------------------------------------------------------------------------------- *)
+(* pending_w: written, not flushed; infl: flushed, not yet moved into the receive buffer (what
+   Stream.readMore moves when Len() is too small); av: what Len() of the reader counts *)
+Record spec := { pw : list byte; infl : list byte; av : list byte }.
+Definition spec0 : spec := {| pw := []; infl := []; av := [] |}.
+
+Definition spec_more (n : nat) (sp : spec) : option spec :=
+  if length (av sp) <? n then
+    if length (av sp) + length (infl sp) <? n then None
+    else Some {| pw := pw sp; infl := []; av := av sp ++ infl sp |}
+  else Some sp.
+Definition with_av (sp : spec) (a : list byte) : spec := {| pw := pw sp; infl := infl sp; av := a |}.
+Definition with_pw (sp : spec) (a : list byte) : spec := {| pw := a; infl := infl sp; av := av sp |}.
+
+(* None = the call would wait *)
+Definition spec_step (sp : spec) (o : op) : option (res * spec) :=
+  match o with
+  | WBytes bs | WString bs => Some (RN (length bs), with_pw sp (pw sp ++ bs))
+  | WByte b => Some (RUnit, with_pw sp (pw sp ++ [b]))
+  | WReserve bs => Some (RUnit, with_pw sp (pw sp ++ bs))
+  | WWrite bs => match bs with
+                 | [] => Some (RN 0, sp)
+                 | _ => Some (RN (length bs), {| pw := []; infl := infl sp ++ pw sp ++ bs; av := av sp |})
+                 end
+  | WFlush => Some (RUnit, {| pw := []; infl := infl sp ++ pw sp; av := av sp |})
+  | RBytes n | RString n =>
+      if n =? 0 then Some (RData [], sp) else
+      match spec_more n sp with
+      | Some sp1 => Some (RData (firstn n (av sp1)), with_av sp1 (skipn n (av sp1)))
+      | None => None end
+  | RPeek n =>
+      if n =? 0 then Some (RData [], sp) else
+      match spec_more n sp with
+      | Some sp1 => Some (RData (firstn n (av sp1)), sp1)     (* Peek consumes nothing *)
+      | None => None end
+  | RDiscard n =>
+      match spec_more n sp with
+      | Some sp1 => Some (RN n, with_av sp1 (skipn n (av sp1)))
+      | None => None end
+  | RByte =>
+      match spec_more 1 sp with
+      | Some sp1 => match av sp1 with b :: r => Some (RB b, with_av sp1 r) | [] => None end
+      | None => None end
+  | RRead n =>
+      if n =? 0 then Some (RData [], sp) else
+      match spec_more 1 sp with
+      | Some sp1 => let k := Nat.min n (length (av sp1)) in
+                    Some (RData (firstn k (av sp1)), with_av sp1 (skipn k (av sp1)))
+      | None => None end
+  | RRelease | RReleaseReuse => Some (RUnit, sp)
+  | RClose => Some (RUnit, with_av sp [])
+  | OAlloc _ => Some (RUnit, sp)      (* result depends on the allocator, not on the byte queue *)
+  | OFill _ _ | OFree _ => Some (RUnit, sp)
+  end.
+
+Definition res_agree (o : op) (x y : res) : Prop := match o with OAlloc _ => True | _ => x = y end.
+
+(* op by op: same outcome, same bytes / n, Len of both buffers as the byte queue says *)
+Fixpoint agrees (s : sys) (sp : spec) (ops : list op) : Prop :=
+  match ops with
+  | [] => True
+  | o :: r =>
+    match spec_step sp o with
+    | None => step s o = Blocked /\ agrees s sp r
+    | Some (x, sp') =>
+        exists y s', step s o = Ok (y, s') /\ res_agree o x y
+                  /\ len (rcv s') = Z.of_nat (length (av sp')) /\ len (snd s') = Z.of_nat (length (pw sp'))
+                  /\ agrees s' sp' r
+    end
+  end.
+
+(* the covered op set of the proved refinement: every reader operation with a positive size that
+   the receive buffer can satisfy, and the two releases *)
+Definition covered (a : list byte) (o : op) : Prop :=
+  match o with
+  | RBytes n | RPeek n | RString n | RDiscard n => 0 < n <= length a
+  | RByte => 0 < length a
+  | RRead n => 0 < n /\ 0 < length a
+  | RRelease | RReleaseReuse => True
+  | _ => False
+  end.
+Fixpoint covered_all (sp : spec) (ops : list op) : Prop :=
+  match ops with
+  | [] => True
+  | o :: r => covered (av sp) o /\
+              match spec_step sp o with Some (_, sp') => covered_all sp' r | None => False end
+  end.
+
+Lemma read_more_enough n s : (Z.of_nat n <= len (rcv s))%Z -> read_more n s = Ok s.
+Proof. intros H. unfold read_more. destruct (Z.ltb_spec (len (rcv s)) (Z.of_nat n)); [lia|reflexivity]. Qed.
+
+Lemma spec_more_enough n sp : n <= length (av sp) -> spec_more n sp = Some sp.
+Proof. intros H. unfold spec_more. destruct (Nat.ltb_spec (length (av sp)) n); [lia|reflexivity]. Qed.
+
+Lemma rd_op_ok {A} s (f : shm -> lbuf -> outcome (A * lbuf)) (g : A -> res) a l1 c :
+  f (mem s) (rcv s) = Ok (a, l1) -> WF (mem s) l1 -> content (mem s) l1 = c ->
+  exists s', rd_op s f g = Ok (g a, s') /\ WF (mem s') (rcv s') /\ content (mem s') (rcv s') = c
+             /\ snd s' = snd s /\ leases (rcv s') = leases l1.
+Proof.
+  intros Hf Hwf Hc. unfold rd_op. rewrite Hf. cbn [bind].
+  pose proof (settle_ok (mem s) l1 Hwf) as Hst. destruct (settle (mem s) l1) as [m2 l2].
+  destruct Hst as [_ [Hwf2 [Hc2 Hle2]]].
+  eexists. split; [reflexivity|]. cbn [mem rcv snd with_mem_rcv]. rewrite Hc2. auto.
+Qed.
+
+Theorem reader_refines : forall ops s sp,
+  WF (mem s) (rcv s) -> content (mem s) (rcv s) = av sp -> len (snd s) = Z.of_nat (length (pw sp)) ->
+  covered_all sp ops -> agrees s sp ops.
+Proof.
+  induction ops as [|o ops IH]; intros s sp Hwf Hc Hsnd Hcov; [exact I|].
+  destruct Hcov as [Hco Hrest]. cbn [agrees].
+  pose proof Hwf as [Hlen _ _]. rewrite Hc in Hlen.
+  (* common closing step *)
+  assert (Hclose : forall x sp' y s',
+            step s o = Ok (y, s') -> x = y -> WF (mem s') (rcv s') -> content (mem s') (rcv s') = av sp' ->
+            snd s' = snd s -> pw sp' = pw sp -> covered_all sp' ops ->
+            exists y0 s0, step s o = Ok (y0, s0) /\ res_agree o x y0
+               /\ len (rcv s0) = Z.of_nat (length (av sp')) /\ len (snd s0) = Z.of_nat (length (pw sp'))
+               /\ agrees s0 sp' ops).
+  { intros x sp' y s' Hst Hxy Hwf' Hc' Hs' Hp' Hcov'. exists y, s'. split; [exact Hst|].
+    split; [destruct o; try exact I; exact Hxy|].
+    split; [destruct Hwf' as [G _ _]; rewrite G, Hc'; reflexivity|].
+    split; [rewrite Hs', Hp'; exact Hsnd|].
+    apply IH; auto. rewrite Hs', Hp'. exact Hsnd. }
+  destruct o; cbn [covered] in Hco; try contradiction; cbn [spec_step] in Hrest |- *.
+  - (* RBytes *)
+    destruct (Nat.eqb_spec n 0) as [|_]; [lia|]. rewrite (spec_more_enough n sp) in Hrest |- * by lia.
+    destruct (read_bytes_refines (mem s) n (rcv s) Hwf) as [l1 [Hr [Hc1 Hwf1]]]; [lia|lia|].
+    destruct (rd_op_ok s (fun m l => read_bytes m n l) RData _ l1 _ Hr Hwf1 Hc1) as [s' [Hst [Hwf' [Hc' [Hs' _]]]]].
+    eapply Hclose; [cbn [step]; destruct (Nat.eqb_spec n 0); [lia|]; rewrite read_more_enough by lia; cbn [bind]; exact Hst
+                   |rewrite Hc; reflexivity|exact Hwf'|rewrite Hc', Hc; reflexivity|exact Hs'|reflexivity|exact Hrest].
+  - (* RPeek *)
+    destruct (Nat.eqb_spec n 0) as [|_]; [lia|]. rewrite (spec_more_enough n sp) in Hrest |- * by lia.
+    destruct (peek_refines (mem s) n (rcv s) Hwf) as [l1 [Hr [Hs1 [Hl1 _]]]]; [lia|lia|].
+    assert (Hwf1 : WF (mem s) l1) by (apply (WF_fields (mem s) (rcv s)); assumption).
+    assert (Hc1 : content (mem s) l1 = content (mem s) (rcv s)) by (unfold content; rewrite Hs1; reflexivity).
+    destruct (rd_op_ok s (fun m l => peek m n l) RData _ l1 _ Hr Hwf1 Hc1) as [s' [Hst [Hwf' [Hc' [Hs' _]]]]].
+    eapply Hclose; [cbn [step]; destruct (Nat.eqb_spec n 0); [lia|]; rewrite read_more_enough by lia; cbn [bind]; exact Hst
+                   |rewrite Hc; reflexivity|exact Hwf'|rewrite Hc', Hc; reflexivity|exact Hs'|reflexivity|exact Hrest].
+  - (* RDiscard *)
+    rewrite (spec_more_enough n sp) in Hrest |- * by lia.
+    assert (Hne : slices (rcv s) <> []).
+    { intros E. rewrite <- Hc, (content_nil (mem s) _ E) in Hco. simpl in Hco. lia. }
+    destruct (discard_refines (mem s) n (rcv s) Hwf) as [l1 [Hr [Hc1 [Hwf1 _]]]]; [lia|exact Hne|].
+    destruct (rd_op_ok s (fun _ l => discard n l) RN _ l1 _ Hr Hwf1 Hc1) as [s' [Hst [Hwf' [Hc' [Hs' _]]]]].
+    eapply Hclose; [cbn [step]; rewrite read_more_enough by lia; cbn [bind]; exact Hst
+                   |reflexivity|exact Hwf'|rewrite Hc', Hc; reflexivity|exact Hs'|reflexivity|exact Hrest].
+  - (* RByte *)
+    rewrite (spec_more_enough 1 sp) in Hrest |- * by lia.
+    destruct (read_byte_refines (mem s) (rcv s) Hwf) as [b [l1 [Hr [Hc1 [Hwf1 _]]]]]; [lia|].
+    rewrite Hc in Hc1. destruct (av sp) as [|b0 r0] eqn:Ea; [simpl in Hco; lia|]. injection Hc1 as <- Hc1.
+    destruct (rd_op_ok s (fun m l => read_byte m l) RB _ l1 _ Hr Hwf1 (eq_sym Hc1)) as [s' [Hst [Hwf' [Hc' [Hs' _]]]]].
+    eapply Hclose; [cbn [step]; rewrite read_more_enough by (simpl in Hlen; lia); cbn [bind]; exact Hst
+                   |reflexivity|exact Hwf'|rewrite Hc'; reflexivity|exact Hs'|reflexivity|exact Hrest].
+  - (* RString *)
+    destruct (Nat.eqb_spec n 0) as [|_]; [lia|]. rewrite (spec_more_enough n sp) in Hrest |- * by lia.
+    destruct (read_string_refines (mem s) n (rcv s) Hwf) as [l1 [Hr [Hc1 [Hwf1 _]]]]; [lia|lia|].
+    destruct (rd_op_ok s (fun m l => read_string m n l) RData _ l1 _ Hr Hwf1 Hc1) as [s' [Hst [Hwf' [Hc' [Hs' _]]]]].
+    eapply Hclose; [cbn [step]; destruct (Nat.eqb_spec n 0); [lia|]; rewrite read_more_enough by lia; cbn [bind]; exact Hst
+                   |rewrite Hc; reflexivity|exact Hwf'|rewrite Hc', Hc; reflexivity|exact Hs'|reflexivity|exact Hrest].
+  - (* RRead *)
+    destruct (Nat.eqb_spec n 0) as [|_]; [lia|]. rewrite (spec_more_enough 1 sp) in Hrest |- * by lia.
+    destruct (read_copy_refines (mem s) n (rcv s) Hwf) as [l1 [Hr [Hc1 [Hwf1 _]]]]; [lia|].
+    destruct (rd_op_ok s (fun m l => read_copy m n l) RData _ l1 _ Hr Hwf1 Hc1) as [s' [Hst [Hwf' [Hc' [Hs' _]]]]].
+    eapply Hclose; [cbn [step]; destruct (Nat.eqb_spec n 0); [lia|]; rewrite read_more_enough by lia; cbn [bind]; exact Hst
+                   |rewrite Hc; reflexivity|exact Hwf'|rewrite Hc', Hc; reflexivity|exact Hs'|reflexivity|exact Hrest].
+  - (* RRelease *)
+    pose proof (release_ok (mem s) (rcv s) Hwf) as Hrel.
+    destruct (release (mem s) (rcv s)) as [m1 l1] eqn:Erel. destruct Hrel as [Hwf1 [Hc1 _]].
+    eapply (Hclose RUnit sp RUnit (with_mem_rcv s m1 l1)); [cbn [step]; rewrite Erel; reflexivity|reflexivity|exact Hwf1
+                   |cbn [mem rcv with_mem_rcv]; rewrite Hc1; exact Hc|reflexivity|reflexivity|exact Hrest].
+  - (* RReleaseReuse *)
+    pose proof (release_reserve_ok (mem s) (rcv s) Hwf) as Hrel.
+    destruct (release_reserve (mem s) (rcv s)) as [m1 l1] eqn:Erel. destruct Hrel as [Hwf1 [Hc1 _]].
+    eapply (Hclose RUnit sp RUnit (with_mem_rcv s m1 l1)); [cbn [step]; rewrite Erel; reflexivity|reflexivity|exact Hwf1
+                   |cbn [mem rcv with_mem_rcv]; rewrite Hc1; exact Hc|reflexivity|reflexivity|exact Hrest].
+Qed.
+
+(* transport through the socket: moveTo of fallback slices appends exactly the flushed bytes *)
+Lemma move_to_fallback : forall ds m l,
+  WF m l -> Forall (fun d => d <> []) ds ->
+  exists l', move_to m l (map (fun d => PFallback (fallback_slice d)) ds) = Ok (m, l')
+          /\ WF m l' /\ content m l' = content m l ++ concat ds.
+Proof.
+  induction ds as [|d ds IH]; intros m l Hwf Hds.
+  - exists l. cbn. rewrite app_nil_r. auto.
+  - inversion Hds as [|? ? Hd Hr]; subst. cbn [map move_to].
+    destruct (fallback_delivery m l d Hwf Hd) as [Hwf1 Hc1].
+    destruct (IH m _ Hwf1 Hr) as [l' [Hm [Hwf' Hc']]]. exists l'. split; [exact Hm|]. split; [exact Hwf'|].
+    rewrite Hc', Hc1. cbn [concat]. now rewrite app_assoc.
+Qed.
+
+Lemma WF_empty m : WF m empty_buf.
+Proof. constructor; cbn; constructor. Qed.
+
+(* whatever was flushed through the fallback transport, in whatever pieces, every covered reader
+   sequence on the freshly filled receive buffer behaves like the byte queue *)
+Theorem fallback_pipe_refines cfg ds ops :
+  Forall (fun d => d <> []) ds ->
+  let s0 := init_sys cfg in
+  exists l', move_to (mem s0) (rcv s0) (map (fun d => PFallback (fallback_slice d)) ds) = Ok (mem s0, l')
+    /\ (covered_all {| pw := []; infl := []; av := concat ds |} ops ->
+        agrees (with_mem_rcv s0 (mem s0) l') {| pw := []; infl := []; av := concat ds |} ops).
+Proof.
+  intros Hds s0. destruct (move_to_fallback ds (mem s0) (rcv s0) (WF_empty _) Hds) as [l' [Hm [Hwf Hc]]].
+  exists l'. split; [exact Hm|]. intros Hcov. apply reader_refines; auto.
+Qed.
+
+(* ---------------------------------------------------------------------------------------- *)
+(* the full statement, and its refutation at size 0                                          *)
+(* ---------------------------------------------------------------------------------------- *)
+Definition pipe_full : Prop := forall cfg ops, agrees (init_sys cfg) spec0 ops.
+
+Lemma discard0_panics : step (init_sys [(16, 2)]) (RDiscard 0) = Panic 1.
+Proof. vm_compute. reflexivity. Qed.
+
+Lemma reserve0_exhausted_panics :
+  exists s1 r, step (init_sys [(16, 2)]) (OAlloc 16) = Ok (r, s1) /\ step s1 (WReserve []) = Panic 2.
+Proof. eexists. eexists. split; vm_compute; reflexivity. Qed.
+
+Lemma pipe_full_refuted : ~ pipe_full.
+Proof.
+  intros H. specialize (H [(16, 2)] [RDiscard 0]). cbn [agrees] in H.
+  change (spec_step spec0 (RDiscard 0)) with (Some (RN 0, spec0)) in H. destruct H as [y [s' [H _]]]. rewrite discard0_panics in H. discriminate.
+Qed.
+
+Lemma pipe_full_refuted_reserve0 : ~ pipe_full.
+Proof.
+  intros H. specialize (H [(16, 2)] [OAlloc 16; WReserve []]). cbn [agrees spec_step] in H.
+  destruct H as [y [s' [H1 [_ [_ [_ H2]]]]]]. cbn [agrees spec_step] in H2.
+  destruct H2 as [y2 [s2 [H2 _]]].
+  destruct reserve0_exhausted_panics as [s1 [r [G1 G2]]]. rewrite G1 in H1. injection H1 as <- <-.
+  rewrite G2 in H2. discriminate.
+Qed.
+
+(* ---------------------------------------------------------------------------------------- *)
+(* Part D — leases (C08)                                                                     *)
+(* ---------------------------------------------------------------------------------------- *)
+(* D1: no operation other than a writer operation / a fill by the owner of a slot changes a data
+   byte of the store: reading (fast, slow), peeking, discarding, the move of pending data (incl.
+   the header surgery of the empty-slice unlinking), releasing, closing, allocating, freeing. *)
+Lemma chain_same_data : forall fuel m l o m' l', chain fuel m l o = Ok (m', l') -> same_data m m'.
+Proof.
+  induction fuel as [|fuel IH]; intros m l o m' l' H; [discriminate|].
+  cbn [chain] in H. destruct (nth_error (slots m) o) as [t|]; [|injection H as <- _; apply same_data_refl].
+  destruct (ssize (slice_of_slot o t) =? 0).
+  - destruct (slices l) as [|x r].
+    + apply IH in H. eapply same_data_trans; [apply same_data_recycle|exact H].
+    + destruct (negb (shmf (last (x :: r) (slice_of_slot o t)))); [discriminate|].
+      destruct (st_hasnext t).
+      * apply IH in H. eapply same_data_trans; [|exact H].
+        eapply same_data_trans; [apply same_data_upd_hdr; reflexivity|apply same_data_recycle].
+      * injection H as <- _.
+        eapply same_data_trans; [apply same_data_upd_hdr; reflexivity|apply same_data_recycle].
+  - destruct (st_hasnext t); [apply IH in H; exact H|injection H as <- _; apply same_data_refl].
+Qed.
+
+Lemma move_to_same_data : forall ps m l m' l', move_to m l ps = Ok (m', l') -> same_data m m'.
+Proof.
+  induction ps as [|p ps IH]; intros m l m' l' H; cbn [move_to] in H.
+  - injection H as <- _. apply same_data_refl.
+  - destruct p as [o|s].
+    + destruct (chain (S (length (slots m))) m l o) as [[m1 l1]| | |] eqn:E; cbn [bind] in H; try discriminate.
+      eapply same_data_trans; [eapply chain_same_data; exact E|eapply IH; exact H].
+    + eapply IH; exact H.
+Qed.
+
+Lemma read_more_same_data n s s' : read_more n s = Ok s' -> same_data (mem s) (mem s') /\ snd s' = snd s /\ oth s' = oth s.
+Proof.
+  unfold read_more. destruct (len (rcv s) <? Z.of_nat n)%Z.
+  - destruct (move_to (mem s) (rcv s) (pend s)) as [[m1 l1]| | |] eqn:E; cbn [bind]; try discriminate.
+    destruct (len l1 <? Z.of_nat n)%Z; [discriminate|]. intros H. injection H as <-. cbn [mem snd oth].
+    split; [eapply move_to_same_data; exact E|auto].
+  - intros H. injection H as <-. split; [apply same_data_refl|auto].
+Qed.
+
+Lemma rd_op_same_data {A} s (f : shm -> lbuf -> outcome (A * lbuf)) (g : A -> res) y s' :
+  rd_op s f g = Ok (y, s') -> same_data (mem s) (mem s').
+Proof.
+  unfold rd_op. destruct (f (mem s) (rcv s)) as [[a l1]| | |]; cbn [bind]; try discriminate.
+  unfold settle. intros H. injection H as _ <-. cbn [mem with_mem_rcv]. apply same_data_recycle_all.
+Qed.
+
+Lemma clean_pinned_same_data m l : same_data m (fst (clean_pinned m l)).
+Proof. unfold clean_pinned. destruct (pinned l); cbn [fst]; [apply same_data_refl|apply same_data_recycle_all]. Qed.
+
+Lemma release_same_data m l : same_data m (fst (release m l)).
+Proof.
+  unfold release. pose proof (clean_pinned_same_data m l) as H. destruct (clean_pinned m l) as [m1 l1]. cbn [fst] in H.
+  cbn [slices set_leases wpos]. destruct (slices l1) as [|x r]; [exact H|].
+  destruct (wpos l1) as [|[|k]|]; try exact H. destruct (ssize x =? 0); cbn [fst]; [|exact H].
+  eapply same_data_trans; [exact H|apply same_data_recycle].
+Qed.
+
+Lemma release_reserve_same_data m l : same_data m (fst (release_reserve m l)).
+Proof.
+  unfold release_reserve. pose proof (clean_pinned_same_data m l) as H. destruct (clean_pinned m l) as [m1 l1]. cbn [fst] in H.
+  cbn [len set_leases slices]. destruct (len l1 =? 0)%Z; [|exact H].
+  destruct (slices l1) as [|x [|x2 r]]; try exact H. destruct (shmf x); cbn [fst]; [|exact H].
+  eapply same_data_trans; [exact H|apply same_data_upd_hdr; reflexivity].
+Qed.
+
+(* the operations that do not write payload bytes *)
+Definition nonwriting (o : op) : bool :=
+  match o with
+  | RBytes _ | RPeek _ | RDiscard _ | RByte | RString _ | RRead _ | RRelease | RReleaseReuse | RClose
+  | OAlloc _ | OFree _ => true
+  | _ => false
+  end.
+
+Lemma pop_class_same_data m i s m' : pop_class m i = Some (s, m') -> same_data m m'.
+Proof.
+  unfold pop_class. destruct (nth_error (free m) i) as [[|a [|b r]]|]; try discriminate.
+  destruct (nth_error (slots m) a); [|discriminate]. intros H. injection H as _ <-.
+  eapply same_data_trans; [apply same_data_with_free|apply same_data_upd_hdr; reflexivity].
+Qed.
+Lemma alloc_first_same_data : forall cs m size i s m', alloc_first m size cs i = Some (s, m') -> same_data m m'.
+Proof.
+  induction cs as [|c cs IH]; intros m size i s m' H; cbn [alloc_first] in H; [discriminate|].
+  destruct (size <=? c); [|eapply IH; exact H].
+  destruct (pop_class m i) as [[s1 m1]|] eqn:E; [injection H as _ <-; eapply pop_class_same_data; exact E|eapply IH; exact H].
+Qed.
+
+Theorem step_same_data s o y s' : nonwriting o = true -> step s o = Ok (y, s') -> same_data (mem s) (mem s').
+Proof.
+  intros Hn H. destruct o; try discriminate Hn; cbn [step] in H.
+  - destruct (n =? 0); [injection H as _ <-; apply same_data_refl|].
+    destruct (read_more n s) as [s1| | |] eqn:E; cbn [bind] in H; try discriminate.
+    apply read_more_same_data in E. apply rd_op_same_data in H. eapply same_data_trans; [apply E|exact H].
+  - destruct (n =? 0); [injection H as _ <-; apply same_data_refl|].
+    destruct (read_more n s) as [s1| | |] eqn:E; cbn [bind] in H; try discriminate.
+    apply read_more_same_data in E. apply rd_op_same_data in H. eapply same_data_trans; [apply E|exact H].
+  - destruct (read_more n s) as [s1| | |] eqn:E; cbn [bind] in H; try discriminate.
+    apply read_more_same_data in E. apply rd_op_same_data in H. eapply same_data_trans; [apply E|exact H].
+  - destruct (read_more 1 s) as [s1| | |] eqn:E; cbn [bind] in H; try discriminate.
+    apply read_more_same_data in E. apply rd_op_same_data in H. eapply same_data_trans; [apply E|exact H].
+  - destruct (n =? 0); [injection H as _ <-; apply same_data_refl|].
+    destruct (read_more n s) as [s1| | |] eqn:E; cbn [bind] in H; try discriminate.
+    apply read_more_same_data in E. apply rd_op_same_data in H. eapply same_data_trans; [apply E|exact H].
+  - destruct (n =? 0); [injection H as _ <-; apply same_data_refl|].
+    destruct (read_more 1 s) as [s1| | |] eqn:E; cbn [bind] in H; try discriminate.
+    apply read_more_same_data in E. apply rd_op_same_data in H. eapply same_data_trans; [apply E|exact H].
+  - pose proof (release_same_data (mem s) (rcv s)) as G. destruct (release (mem s) (rcv s)) as [m1 l1].
+    injection H as _ <-. exact G.
+  - pose proof (release_reserve_same_data (mem s) (rcv s)) as G. destruct (release_reserve (mem s) (rcv s)) as [m1 l1].
+    injection H as _ <-. exact G.
+  - unfold lb_recycle in H. injection H as _ <-. cbn [mem with_mem_rcv]. apply same_data_recycle_all.
+  - unfold allocShmBuffer in H. destruct (n <=? last (cls (mem s)) 0).
+    + destruct (alloc_first (mem s) n (cls (mem s)) 0) as [[b m1]|] eqn:E.
+      * injection H as _ <-. cbn [mem]. eapply alloc_first_same_data; exact E.
+      * injection H as _ <-. apply same_data_refl.
+    + injection H as _ <-. apply same_data_refl.
+  - destruct (nth_error (oth s) i); injection H as _ <-; cbn [mem]; [apply same_data_recycle|apply same_data_refl].
+Qed.
+
+(* what a lease denotes *)
+Definition lease_bytes (m : shm) (le : lease) : list byte :=
+  firstn (l_hi le - l_lo le)
+         (skipn (l_lo le) (sdata m {| shmf := l_shm le; off := l_off le; cap := 0; start := 0; rd := 0; wr := 0; heap := [] |})).
+
+Lemma lease_bytes_same m m' le : same_data m m' -> lease_bytes m' le = lease_bytes m le.
+Proof. intros H. unfold lease_bytes. rewrite H. reflexivity. Qed.
+
+Fixpoint run (s : sys) (ops : list op) : outcome sys :=
+  match ops with
+  | [] => Ok s
+  | o :: r => match step s o with Ok (_, s') => run s' r | Err e => Err e | Panic w => Panic w | Blocked => run s r end
+  end.
+
+Theorem run_same_data : forall ops s s', forallb nonwriting ops = true -> run s ops = Ok s' -> same_data (mem s) (mem s').
+Proof.
+  induction ops as [|o ops IH]; intros s s' Hn H; cbn [run] in H.
+  - injection H as <-. apply same_data_refl.
+  - cbn [forallb] in Hn. apply andb_prop in Hn. destruct Hn as [Ho Hr].
+    destruct (step s o) as [[y s1]| | |] eqn:E; try discriminate.
+    + eapply same_data_trans; [eapply step_same_data; [exact Ho|exact E]|eapply IH; [exact Hr|exact H]].
+    + eapply IH; [exact Hr|exact H].
+Qed.
+
+(* D2: after the release the parked slots are in the free lists again *)
+Definition shm_wf (m : shm) : Prop := length (free m) = length (cls m).
+
+Lemma in_concat_upd_nth (a : nat) : forall (L : list (list nat)) i x,
+  In x (concat (upd_nth i (fun f => f ++ [a]) L)) <-> (In x (concat L) \/ (i < length L /\ x = a)).
+Proof.
+  induction L as [|f L IH]; intros i x.
+  - destruct i; cbn; split; intros H; try tauto; destruct H as [H|[H _]]; [tauto|lia|tauto|lia].
+  - destruct i as [|i]; cbn [upd_nth concat length].
+    + rewrite !in_app_iff. cbn [In]. split; intros H.
+      * destruct H as [[H|[H|[]]]|H]; [tauto| |tauto]. right. split; [lia|auto].
+      * destruct H as [[H|H]|[_ H]]; auto.
+    + rewrite !in_app_iff, IH. split; intros H.
+      * destruct H as [H|[H|[H1 H2]]]; auto. right. split; [lia|auto].
+      * destruct H as [[H|H]|[H1 H2]]; auto. right. right. split; [lia|auto].
+Qed.
+
+Lemma find_class_bound c : forall cs k i, find_class c cs k = Some i -> k <= i < k + length cs.
+Proof.
+  induction cs as [|x cs IH]; intros k i H; cbn [find_class] in H; [discriminate|].
+  destruct (x =? c); [injection H as <-; cbn; lia|]. apply IH in H. cbn [length]. lia.
+Qed.
+Lemma find_class_some c : forall cs k, In c cs -> exists i, find_class c cs k = Some i.
+Proof.
+  induction cs as [|x cs IH]; intros k H; [contradiction|]. cbn [find_class].
+  destruct (Nat.eqb_spec x c) as [|Hne]; [eexists; reflexivity|]. destruct H as [H|H]; [congruence|]. apply IH, H.
+Qed.
+
+Lemma free_recycle m s x :
+  In x (concat (free (recycle m s))) <->
+  (In x (concat (free m)) \/ (shmf s = true /\ x = off s /\ exists i, find_class (cap s) (cls m) 0 = Some i /\ i < length (free m))).
+Proof.
+  unfold recycle. destruct (shmf s); [|split; [auto|intros [H|[H _]]; [auto|discriminate]]].
+  destruct (find_class (cap s) (cls m) 0) as [i|] eqn:E.
+  - unfold upd_slot, with_slots, with_free. cbn [free]. rewrite in_concat_upd_nth. split; intros H.
+    + destruct H as [H|[H1 H2]]; auto. right. repeat split; auto. exists i. auto.
+    + destruct H as [H|[_ [H2 [j [Hj Hl]]]]]; auto. injection Hj as <-. auto.
+  - split; [auto|]. intros [H|[_ [_ [j [Hj _]]]]]; [auto|discriminate].
+Qed.
+
+Lemma recycle_wf m s : shm_wf m -> shm_wf (recycle m s) /\ cls (recycle m s) = cls m.
+Proof.
+  unfold shm_wf, recycle. intros H. destruct (shmf s); [|auto]. destruct (find_class (cap s) (cls m) 0); [|auto].
+  unfold upd_slot, with_slots, with_free. cbn [free cls]. split; [|reflexivity].
+  rewrite <- H. clear. generalize (free m) n. induction l as [|f L IH]; intros i; destruct i; cbn; auto.
+Qed.
+
+Lemma recycle_all_frees : forall ps m p, shm_wf m -> In p ps -> shmf p = true -> In (cap p) (cls m) ->
+  In (off p) (concat (free (recycle_all m ps))).
+Proof.
+  induction ps as [|q ps IH]; intros m p Hwf Hin Hs Hc; [contradiction|].
+  unfold recycle_all in *. cbn [fold_left]. destruct (recycle_wf m q Hwf) as [Hwf' Hcls].
+  destruct Hin as [->|Hin].
+  - assert (G : In (off p) (concat (free (recycle m p)))).
+    { apply free_recycle. right. repeat split; auto. destruct (find_class_some (cap p) (cls m) 0 Hc) as [i Hi].
+      exists i. split; [exact Hi|]. apply find_class_bound in Hi. unfold shm_wf in Hwf. lia. }
+    clear IH. revert G Hwf'. generalize (recycle m p). induction ps as [|q ps IH2]; intros m1 G Hw; [exact G|].
+    cbn [fold_left]. apply IH2; [apply free_recycle; auto|apply recycle_wf, Hw].
+  - apply IH; auto. rewrite Hcls. exact Hc.
+Qed.
+
+Theorem release_frees_parked m l p : shm_wf m -> In p (pinned l) -> shmf p = true -> In (cap p) (cls m) ->
+  let '(m', l') := release m l in In (off p) (concat (free m')) /\ pinned l' = [] /\ leases l' = [].
+Proof.
+  intros Hwf Hin Hs Hc. unfold release, clean_pinned. destruct (pinned l) as [|q ps] eqn:Ep; [contradiction|].
+  pose proof (recycle_all_frees (q :: ps) m p Hwf Hin Hs Hc) as G.
+  cbn [slices set_leases wpos set_curp set_pinned].
+  destruct (slices l) as [|x r]; [auto|]. destruct (wpos l) as [|[|k]|]; auto.
+  destruct (ssize x =? 0); auto. split; [apply free_recycle; auto|auto].
+Qed.
